@@ -4,7 +4,7 @@ from ..facts import CALLS, CTORS, fmt_term
 from ..flow import CFG, Engine, Summaries, norm_cmp, final_site_facts, fmt_fact, cond_facts
 from ..prove import prove_le, Width, definitions, expand
 from ..report import ok, bad
-from ..rules_stream import r_atomic, r_nowrap, r_cursor, r_count, is_store
+from ..rules_stream import r_atomic, r_nowrap, r_cursor, r_count, is_store, r_guard_exact
 
 NS = "OP2Utility::Stream::"
 MW = NS + "MemoryWriter"
@@ -19,6 +19,17 @@ DECLINED = [
 ]
 
 IOS = {"app": 1, "ate": 2, "binary": 4, "in": 8, "out": 16, "trunc": 32}
+
+
+def fopen_mode(fl):
+    """[filebuf.members] table: ios flags (ignoring binary and ate) -> fopen mode string, None if invalid."""
+    key = frozenset(x for x in fl if x in ("in", "out", "trunc", "app"))
+    table = {
+        frozenset(["out"]): "w", frozenset(["out", "trunc"]): "w", frozenset(["out", "app"]): "a", frozenset(["app"]): "a",
+        frozenset(["in"]): "r", frozenset(["in", "out"]): "r+", frozenset(["in", "out", "trunc"]): "w+",
+        frozenset(["in", "out", "app"]): "a+", frozenset(["in", "app"]): "a+",
+    }
+    return table.get(key)
 
 
 def enumerate_paths(fn, g, limit=4096):
@@ -149,20 +160,28 @@ def r_openmode(F, S, run):
             if outcome != "return":
                 probs.append("valid combination is refused")
             else:
-                if "out" not in fl or "binary" not in fl:
-                    probs.append("out|binary missing")
-                if v & TR and "trunc" not in fl:
-                    probs.append("Truncate requested but trunc not set")
-                if v & AP:
-                    if "trunc" in fl:
-                        probs.append("Append requested but trunc set")
-                    if not ("app" in fl or ("in" in fl and "ate" in fl)):
-                        probs.append("Append requested but neither app nor in|ate is set: `out` without them maps to fopen \"w\" and truncates")
+                mode = fopen_mode(fl)
+                if "binary" not in fl:
+                    probs.append("binary missing")
+                if mode is None:
+                    probs.append("ios mode %s is not a valid open mode ([filebuf.members] table): the open fails" % "|".join(sorted(fl)))
+                else:
+                    if not exists and mode not in ("w", "a", "w+", "a+"):
+                        probs.append("file absent but fopen mode \"%s\" does not create it" % mode)
+                    if (v & TR) and mode not in ("w", "w+"):
+                        probs.append("Truncate requested but fopen mode \"%s\" does not truncate" % mode)
+                    if v & AP:
+                        if mode in ("w", "w+"):
+                            probs.append("Append requested but fopen mode \"%s\" truncates (`out` without `in`/`app`)" % mode)
+                        elif not (mode in ("a", "a+") or "ate" in fl):
+                            probs.append("Append requested but the stream is not positioned at the end")
+                    if "out" not in fl and "app" not in fl:
+                        probs.append("not opened for writing")
             req = "%s with file %s opens with the matching ios mode" % (names, "present" if exists else "absent")
             if probs:
                 out.append(bad("R-OPENMODE", inst, fn.loc(fn.body), fn.qn, req, "; ".join(probs) + " (flags: %s)" % "|".join(sorted(fl))))
             else:
-                out.append(ok("R-OPENMODE", inst, fn.loc(fn.body), fn.qn, req, "ios flags " + "|".join(sorted(fl))))
+                out.append(ok("R-OPENMODE", inst, fn.loc(fn.body), fn.qn, req, "ios flags %s = fopen \"%s\"" % ("|".join(sorted(fl)), fopen_mode(fl))))
     # the constructor opens with exactly the translated flags, after the directory refusal
     ctor = [f for f in F.fns(FW + "::FileWriter") if not f.d.get("copy_ctor") and len(f.params) == 2]
     if len(ctor) != 1:
@@ -375,6 +394,23 @@ def check(F, run, tier):
         run.add(obs)
         run.add(r_atomic(F, S, fn, label="%s::%s" % (DW, name)))
     run.floor("R-NOWRAP(guards)", guards, 5)
+
+    def P(fn, i):
+        return ("var", fn.params[i]["n"], fn.params[i]["d"])
+    off, lim = ("mem", ("this",), "offset"), ("mem", ("this",), "streamSize")
+    f = F.fn(MW + "::WriteImplementation", nparams=2)
+    run.add(r_guard_exact(F, Engine(F, S), f, [(P(f, 1), ("op", "-", lim, off))], invariants=inv))
+    f = F.fn(MW + "::Seek", nparams=1)
+    run.add(r_guard_exact(F, Engine(F, S), f, [(P(f, 0), lim)], invariants=inv))
+    f = F.fn(MW + "::SeekForward", nparams=1)
+    run.add(r_guard_exact(F, Engine(F, S), f, [(P(f, 0), ("op", "-", lim, off))], invariants=inv))
+    f = F.fn(MW + "::SeekBackward", nparams=1)
+    run.add(r_guard_exact(F, Engine(F, S), f, [(P(f, 0), off)], invariants=inv))
+    f = F.fn(DW + "::SeekBackward", nparams=1)
+    run.add(r_guard_exact(F, Engine(F, S), f, [(P(f, 0), ("size", ("mem", ("this",), "streamBuffer")))]))
+    for nm, np_ in (("SeekForward", 1), ("WriteImplementation", 2)):
+        f = F.fn(DW + "::" + nm, nparams=np_)
+        run.add(r_guard_exact(F, Engine(F, S), f, []))
 
     # the memcpy of the fixed-buffer writer targets streamBuffer + offset with the guarded size
     fn = F.fn(MW + "::WriteImplementation", nparams=2)
